@@ -1,10 +1,18 @@
 use crate::engine::Property;
 
 pub mod c01;
+pub mod c06;
+pub mod c07;
+pub mod c08;
+pub mod c09;
 
 pub fn property(id: &str) -> Option<Property> {
   match id {
     "C01" => Some(c01::property()),
+    "C06" => Some(c06::property()),
+    "C07" => Some(c07::property()),
+    "C08" => Some(c08::property()),
+    "C09" => Some(c09::property()),
     _ => None,
   }
 }
